@@ -191,10 +191,10 @@ theorem mergeLp_backed {s s' : St} {l : List (Nat × Nat)} {t : LkTok} {o : Out}
   obtain ⟨_, _, ⟨s1, sx⟩, h1, rfl, _⟩ := h
   exact newW_backed _ _ _ _ (learn_backed t (takeWs_backed hb h1))
 
-theorem mergeFarm_backed {s s' : St} {farm : Nat} {l : List (Nat × Nat)} {mf : Nat × Nat}
+theorem mergeFarmCore_backed {s s' : St} {farm : Nat} {l : List (Nat × Nat)} {mf : Nat × Nat}
     {t : LkTok} {stray : List LkTok} {o : Out}
-    (hb : Backed s) (h : mergeFarm s farm l mf t stray = some (s', o)) : Backed s' := by
-  simp only [mergeFarm, Option.bind_eq_bind, Option.bind_eq_some_iff, req_eq_some,
+    (hb : Backed s) (h : mergeFarmCore s farm l mf t stray = some (s', o)) : Backed s' := by
+  simp only [mergeFarmCore, Option.bind_eq_bind, Option.bind_eq_some_iff, req_eq_some,
     Option.pure_def] at h
   obtain ⟨_, _, ⟨f0, x0⟩, _, r0, _, ⟨s1, sp⟩, h1, h⟩ := h
   have hb1 := takeFs_backed hb h1
@@ -208,6 +208,14 @@ theorem mergeFarm_backed {s s' : St} {farm : Nat} {l : List (Nat × Nat)} {mf : 
     obtain ⟨rfl, _⟩ := h
     apply addStray_backed
     exact newW_newF_backed sp t.k t.amt r0.farm mf.1 mf.2 (learn_backed t hb1)
+
+theorem mergeFarm_backed {s s' : St} {farm : Nat} {l : List (Nat × Nat)} {mf : Nat × Nat}
+    {t : LkTok} {rew : Option LkTok} {stray : List LkTok} {o : Out}
+    (hb : Backed s) (h : mergeFarm s farm l mf t rew stray = some (s', o)) : Backed s' := by
+  simp only [mergeFarm, Option.bind_eq_bind, Option.bind_eq_some_iff, Option.pure_def,
+    Option.some.injEq, Prod.mk.injEq] at h
+  obtain ⟨⟨s1, o1⟩, h1, rfl, _⟩ := h
+  exact mergeFarmCore_backed (learnOpt_backed rew hb) h1
 
 theorem incLp_backed {s s' : St} {w x : Nat} {t : LkTok} {o : Out}
     (hb : Backed s) (h : incLp s w x t = some (s', o)) : Backed s' := by
@@ -250,7 +258,7 @@ theorem step_backed {s s' : St} {op : Op} {o : Out} (hb : Backed s)
   | exitFarm farm f x farming rew => exact exitFarm_backed (farm := farm) hb h
   | claim farm f x ft rew => exact claim_backed (farm := farm) hb h
   | mergeLp l t => exact mergeLp_backed hb h
-  | mergeFarm farm l mf t stray => exact mergeFarm_backed (farm := farm) hb h
+  | mergeFarm farm l mf t rew stray => exact mergeFarm_backed (farm := farm) hb h
   | incLp w x t => exact incLp_backed hb h
   | incFarm f x t => exact incFarm_backed hb h
 
